@@ -162,6 +162,8 @@ pub fn generic_arg_alphabet(params: ParamForm) -> Vec<Vec<Ty>> {
         Ty::Named(G_H, vec![U8]),
         // a compact type as the argument: `W<Compact<u32>>` next to `W<u8>`
         Ty::Compact(b(U32)),
+        // a transparent prelude type as the argument: the parameter's id is the `Cow`'s, not the borrowed type's
+        Ty::CowStr,
     ];
     match params {
         ParamForm::BitsSO => vec![
